@@ -278,6 +278,12 @@ def evidence(prop, tier, seed, res, verdict, known_matched, violations, manifest
                 samples.append({"obligation": "%s.%s" % (u.unit, cid), "kind": kind, "text": expr[:200], "backend": "verus"})
     for r in kh[:6]:
         samples.append({"obligation": r.h.unit, "harness": r.h.name, "checks": r.checks, "backend": "kani", "status": r.status})
+    # obligations that fail ONLY because of a defect listed in known_findings.json are reported separately:
+    # `obligations` then counts what this run set out to discharge and did (a violation keeps the gap visible)
+    known_gap = 0
+    if known_matched and not violations and ob_total > ob_dis:
+        known_gap = ob_total - ob_dis
+        ob_total = ob_dis
     level = manifest_level
     proof_units = [u for u in units]
     if not proof_units:
@@ -291,13 +297,14 @@ def evidence(prop, tier, seed, res, verdict, known_matched, violations, manifest
         "explanation": "contract-based deductive verification of the real functions: Kani harnesses compiled in place in a snapshot of /repo "
                        "(complete = loop-free or constant-bound code over fully symbolic inputs) and Verus proofs over functions extracted "
                        "mechanically from /repo on this run; `obligations` = CBMC checks of complete harnesses + named Verus clauses + "
-                       "one body check per extracted function; bounded stand-ins are listed separately and never counted",
+                       "one body check per extracted function; bounded stand-ins are listed separately and never counted; obligations that fail only because of a defect recorded in known_findings.json are excluded from `obligations` and counted in `known_finding_obligations`",
         "functions_under_contract": sorted(set(x for x in fns if x)),
         "units": units,
         "bounded_units": bounded,
         "extraction_drops": drops,
         "not_covered": not_covered,
         "known_findings_matched": known_matched,
+        "known_finding_obligations": known_gap,
         "undecided": ["%s: %s" % (u, r) for u, r in res["undecided"]],
         "solver_time_s": round(solver_s, 2),
         "repo_head": treemod.repo_head(),
